@@ -310,3 +310,42 @@ def NUC_index(s):
 
 
 KINDS.update({"arith": k_arith, "conv": k_conv, "succ": k_succ})
+
+
+def vt_ref(s, n):
+    vals = [NUC.index(c) for c in s]
+    flag = sum(vals) % 4
+    asc = sum(i for i in range(len(vals) - 1) if vals[i] < vals[i + 1])
+    out = NUC[flag]
+    if n > 1:
+        val = asc % (4 ** (n - 1))
+        out += "".join(NUC[(val // 4 ** (n - 2 - i)) % 4] for i in range(n - 1))
+    return out
+
+
+def k_vt(p):
+    """C07: set_vt vs the documented formula, and rejection of single edits by decode."""
+    import dsw
+    s, n = p["strand"], int(p["n_vt"])
+    r, ex = call(dsw.set_vt, s, n)
+    if ex is not None:
+        return True, "set_vt(%r, %d) raised %s" % (s, n, ex)
+    if r != vt_ref(s, n):
+        return True, "set_vt(%r, %d) = %r, documented formula gives %r" % (s, n, r, vt_ref(s, n))
+    if p.get("edited") is not None:
+        s2 = p["edited"]
+        r2, ex2 = call(dsw.set_vt, s2, n)
+        if ex2 is not None:
+            return True, "set_vt(%r, %d) raised %s" % (s2, n, ex2)
+        if r2 == r:
+            return True, "single edit %r -> %r keeps the check %r" % (s, s2, r)
+        acc = dsw.get_complete_accessor(1)
+        d, exd = call(dsw.decode, s2, int(p.get("L", 2 * len(s2))), acc, 0, is_faster=bool(p.get("fast")), vt_check=r)
+        if exd is None:
+            return True, "decode accepted the edited strand %r with the original check %r (fast=%s)" % (s2, r, bool(p.get("fast")))
+        if not exd.startswith("ValueError"):
+            return True, "decode raised %s instead of ValueError" % exd
+    return False, "ok"
+
+
+KINDS.update({"vt": k_vt})
